@@ -29,9 +29,12 @@ Init == /\ up = TRUE /\ n = 0
         /\ ver = [d \in Dirs |-> [f \in Fams |-> 0]]
         /\ ev = [k |-> "init", d |-> "", f |-> "", wd |-> <<>>, nl |-> <<>>, a |-> 0]
 \* one UPDATE of family f in direction d.  An IPv4 UPDATE may withdraw and announce at once; the multiprotocol
-\* families use MP_REACH or MP_UNREACH (one of the two per message here)
+\* families use MP_REACH and / or MP_UNREACH
 Update(d, f, wd, nl, a) ==
-   /\ up /\ n < MAXOPS /\ (wd # <<>> \/ nl # <<>>) /\ (f # "ipv4" => (wd = <<>> \/ nl = <<>>))
+   /\ up /\ n < MAXOPS /\ (wd # <<>> \/ nl # <<>>)
+   \* (a multiprotocol UPDATE may carry MP_UNREACH and MP_REACH together; the order in which the two are applied is not
+   \*  defined for the same route, so the two lists are disjoint then)
+   /\ (f # "ipv4" => (wd = <<>> \/ nl = <<>> \/ {wd[i] : i \in 1..Len(wd)} \cap {nl[i] : i \in 1..Len(nl)} = {}))
    /\ LET ops == OpsOf(wd, nl, a) IN
       /\ tab' = [tab EXCEPT ![d][f] = Apply(@, ops)]
       /\ ver' = [ver EXCEPT ![d][f] = @ + Changes(tab[d][f], ops)]     \* one step per changed route, like the code
